@@ -491,17 +491,16 @@ func lazyTagCase(c *Case) Verdict {
 // globDepCase: a dependent FileGlobber picks up the outputs of an upstream
 // process; records of files derived from the globbed files must reach back
 // through the globbed files to their producers.
-func globDepCase(c *Case) Verdict {
+func globDepWF(c *Case) *WF {
 	t := c.Tape
 	w := &WF{Name: "wf", Sources: map[string]string{}, MaxTasks: 1 + t.Choose(simrt.StGen, 3, 0), Bufsize: bufsizeOf(t)}
-	n := 1 + t.Choose(simrt.StGen, 3, 0)
+	n := 1 + t.Choose(simrt.StGen, 4, 0)
 	var vals, files []string
 	for i := 0; i < n; i++ {
 		vals = append(vals, fmt.Sprintf("v%d", i))
 		files = append(files, fmt.Sprintf("gen_v%d.dat", i))
 	}
 	src := srcNode(w, "src0", 1, "")
-	_ = src
 	gen := addNode(w, Node{Name: "gen", Kind: KProc, Cores: 1,
 		Params: []ParamSpec{{Name: "x", Vals: vals}},
 		Outs:   []OutSpec{{Name: "o0", Pattern: "gen_{p:x}.dat"}}})
@@ -513,6 +512,11 @@ func globDepCase(c *Case) Verdict {
 		oneToOne(w, "use2", Edge{u, "o0"})
 	}
 	oneToOne(w, "other", Edge{src, "out"})
+	return w
+}
+
+func globDepCase(c *Case) Verdict {
+	w := globDepWF(c)
 	c.Sample = "dependent globber: " + sample(w)
 	ex := Eval(w)
 	inc := RunInc(w, c.Tape, nil, 0, IncOpts{KillAt: -1, Strategy: strategyOf(c.Tape), Trace: c.Trace})
